@@ -120,9 +120,11 @@ pub fn audit_c09(run: &Run, rep: &mut Report) {
     rep.eval();
     match run.index.get_rune_balances_for_output(*op) {
       Ok(Some(map)) => {
-        let total: u128 = map.values().map(|p| p.amount).sum();
-        let want: u128 = b.values().sum();
-        if map.len() != b.len() || total != want {
+        // per rune, not summed: one output may hold several runes whose
+        // amounts add up to more than u128::MAX
+        let names: BTreeMap<(u64, u32), ordinals::SpacedRune> = entries.iter().map(|(id, e)| (rid(id), e.spaced_rune)).collect();
+        let same = map.len() == b.len() && b.iter().all(|(id, amount)| names.get(id).and_then(|n| map.get(n)).map(|p| p.amount) == Some(*amount));
+        if !same {
           rep.violation("C09/output-balance-api", format!("height {h}: get_rune_balances_for_output({op}) = {map:?}, reference {b:?}"), run.replay.clone());
         }
       }
